@@ -62,6 +62,12 @@ CHECKS = {
         text="TLC proves GuardSound (a path the guard accepts stays lexically inside the root) over all shapes up to the component bound and prints each (operation, shape) with Refused; each is run for read / write / ls / grep / apply_patch / checkpoint create (+ later rewind) / checkpoint rewind / shell cwd / task cwd through the real router (so the auto-checkpoint hook sees the raw argument), with the full sentinel tree hashed before and after: nothing outside changes, refused requests fail and change neither workspace nor checkpoint store, no canary content reaches frames or the store, ls/grep answers are independent of ignore files outside the root.",
         note="'Nothing outside is read' is observed through canaries and active ignore files, not proved; symlinks already inside the workspace are out of scope; one recorded finding (D17).",
         ref="4 C13"),
+    "C14": dict(
+        engine="Checkpoint",
+        technique="TLA+ spec Checkpoint (workspace + checkpoint store; explicit and automatic checkpoints, tool and raw edits, rewinds in any order) model-checked with TLC (RewindExact, FailedRewindNoop, AutoCovers); one operation sequence per distinct state replayed on the real Workspace/ToolRunner and through the real router, workspace compared after every step",
+        text="TLC proves RewindExact, FailedRewindNoop and AutoCovers in every reachable state of the bounded model and prints one operation sequence per distinct (workspace, store) state with the predicted workspace after each step; the harness executes every sequence on the real Workspace and ToolRunner (automatic checkpoints) and a sample through the real router and checkpoint hook, with the working directory equal to and different from the root (decoy files there), and requires the observed workspace to equal the prediction after every step, explicit creates / rewinds to succeed or fail as predicted, and every file-editing tool call to be preceded by an automatic checkpoint covering the files it changes.",
+        note="Three paths (one nested), contents v1..v3; direct mode uses a 20-line hook adapter, the router sample the real hook; operation sequences up to MaxOps.",
+        ref="4 C14"),
     "C15": dict(
         engine="Sse",
         technique="TLA+ specs SseLines (SseDecoder::push/finish transcribed) and Utf8 (push_bytes carry transcribed) model-checked with TLC over all streams x all partitions; every stream replayed on the real decoder under token-boundary, single-byte and byte-at-a-time partitions and through real runs with controlled TCP chunking",
